@@ -33,6 +33,7 @@ type HistoryCfg struct {
 	Keep    bool
 	Weights *Weights
 	NoQuiet bool
+	Echidna bool // see ProducerConfig.Echidna
 	OnBlock func(p *Producer, b *block.Block)
 }
 
@@ -62,7 +63,7 @@ func BuildHistory(t testing.TB, hc HistoryCfg) *History {
 		pr = func(c *config.Blockchain) { proto(c); c.StateRootInHeader = true }
 	}
 	h := &History{Idx: hc.Idx, Proto: pr, PName: pname}
-	pc := ProducerConfig{Proto: pr, Users: 10, Observe: true, Keep: hc.Keep, Stream: uint64(hc.Idx)*7 + 100}
+	pc := ProducerConfig{Proto: pr, Users: 10, Observe: true, Keep: hc.Keep, Stream: uint64(hc.Idx)*7 + 100, Echidna: hc.Echidna}
 	if hc.Weights != nil {
 		pc.W = *hc.Weights
 	}
@@ -106,6 +107,14 @@ func BuildHistory(t testing.TB, hc HistoryCfg) *History {
 		if i < 8 {
 			txs = append(txs, p.Call("vote", []neotest.Signer{u.S}, p.NeoH, "vote", u.Hash(), p.Users[2+(i*3)%8].Acc.PublicKey().Bytes()))
 		}
+	}
+	// Oracle and P2PNotary nodes from the start (keys the harness holds), so
+	// that oracle responses and notary-assisted transactions appear in every
+	// history; later designations change them.
+	if sg := p.committee(); sg != nil {
+		txs = append(txs,
+			p.Call("designate-role", sg, p.RoleH, "designateAsRole", int64(8), []any{DetKey("role", 0).PublicKey().Bytes(), DetKey("role", 1).PublicKey().Bytes(), DetKey("role", 2).PublicKey().Bytes()}),
+			p.Call("designate-role", sg, p.RoleH, "designateAsRole", int64(32), []any{DetKey("role", 1).PublicKey().Bytes(), DetKey("role", 3).PublicKey().Bytes()}))
 	}
 	p.AddBlock(txs...)
 	h.Txs = append(h.Txs, txs)
